@@ -1376,16 +1376,24 @@ func ExistExpr(query *Query, current Map, expr *sqlparser.ExistsExpr, opts ...Ex
 	if err != nil {
 		return false, err
 	}
+	// the nested rows are extended with the outer row's columns in copies: q.from may be an
+	// array of the caller's document and its elements are the caller's objects
+	from := make([]any, len(q.from))
 	for i := 0; i < len(q.from); i++ {
 		item, ok := q.from[i].(Map)
 		if !ok {
 			return false, INVALID_TYPE.Extend(fmt.Sprintf("failed to build `EXIST` expression. expected an object but found %T", item))
 		}
-		for key, value := range current {
-			item[key] = value
+		merged := make(Map, len(item)+len(current))
+		for key, value := range item {
+			merged[key] = value
 		}
-		q.from[i] = item
+		for key, value := range current {
+			merged[key] = value
+		}
+		from[i] = merged
 	}
+	q.from = from
 	rs, err := q.exec()
 	array, ok := rs.([]any)
 	if !ok {
